@@ -408,3 +408,17 @@ package pilosa
 //@   loop 1 invariant i == 8 ==> x == x_0 / pow2(56)
 //@   loop 1 invariant i == 9 ==> x == x_0 / pow2(63)
 //@   loop 1 decreases x
+
+// pow2 (the Go function in translate.go, not the spec function of the same name): the
+// capacity the key index is allocated with.  For every v up to 2^61 it returns the
+// least power of two that is at least max(v, 2) and never reaches the panic.
+//@ contract pow2 props C24
+//@   requires v <= 2305843009213693952
+//@   ensures result >= v && result >= 2
+//@   ensures result == 2 || result < 2 * v
+//@   ensures exists k :: 1 <= k && k <= 61 && result == pow2(k)
+//@   modifies nothing
+//@   loop 1 invariant 2 <= i && i <= 4611686018427387904
+//@   loop 1 invariant i == 2 || i < 2 * v
+//@   loop 1 invariant exists k :: 1 <= k && k <= 62 && i == pow2(k)
+//@   loop 1 decreases 4611686018427387904 - i
